@@ -25,6 +25,7 @@ Record tcase := {
   ob_gauge : list (bool * Z);  (* raffle: ticket gauges (pool is full?, value) in the order they were emitted *)
   ob_finalF : Z; ob_finalI : Z; ob_running : Z;
   ob_hist : list Z;            (* barrier: ob_hist[g] = rounds in which g requesters held a ticket for the id at once *)
+  ob_rounds : Z;               (* barrier: rounds actually played (the driver stops after 20 s on a very busy machine) *)
   ob_badacct : Z               (* barrier: rounds after which pools / running set were not back at the initial values *)
 }.
 
@@ -73,7 +74,8 @@ Definition barrier_bound (c : tcase) : nat :=
   if t_distinct c then Z.to_nat (if req_kind c then t_capF c else t_capI c) else 1%nat.
 
 Definition agree_barrier (c : tcase) : bool :=
-  list_eqb Z.eqb (ob_hist c) (repeat 0 (model_granted c) ++ [t_rounds c])
+  (0 <? ob_rounds c) && (ob_rounds c <=? t_rounds c)
+  && list_eqb Z.eqb (ob_hist c) (repeat 0 (model_granted c) ++ [ob_rounds c])
   && Z.eqb (ob_badacct c) 0
   && Z.eqb (ob_finalF c) (t_capF c) && Z.eqb (ob_finalI c) (t_capI c) && Z.eqb (ob_running c) 0.
 
